@@ -38,8 +38,9 @@ LEVEL_NOTE = ("Trusted: Coq kernel, extraction, the harness feature extractor (i
               "compilation, attribute look-ups on the parent, tuple indexing into the parent's annotation, the expression builder's error path), "
               "all repaired by fix: commits and kept as must-pass corpus cases. "
               "No known finding is left: C12-F1 (Numpy returned no section for the empty docstring) is repaired as well.")
-MODEL = ("Model.C12_docstrings", "run_C12")
-COQ_TARGETS = ["Proofs/C12_docstrings.vo", "Proofs/C12_regex.vo"]
+MODEL = ("Model.C12_run", "run_C12x")
+MODEL_TARGETS = ["Model/C12_run.vo"]
+COQ_TARGETS = ["Proofs/C12_docstrings.vo", "Proofs/C12_regex.vo", "Proofs/C12_chars.vo"]
 RULE = ("texts of <=12 lines (some longer) assembled from section keywords, separators, indentation levels, item syntaxes and prose: "
         "(a) exhaustive sequences of <=3 line classes (thorough: <=4) from a 13-letter alphabet per style, (b) seeded random fragment sequences, "
         "(c) structured mostly-valid docstrings per style with seeded perturbations (dropped blank lines, shifted indents), "
@@ -81,8 +82,8 @@ _N_NAME = r"\*{0,2}[_a-z][_a-z0-9]*"
 N_RE_PARAMETER = re.compile(
     rf"(?P<names>{_N_NAME}(?:,\s{_N_NAME})*)(?:\s:\s(?:(?:\{{(?P<choices>.+)\}})|(?P<type>.+))?)?", re.IGNORECASE)
 # order of _field_types: first match wins
-S_FIELDS = [("type",), ("param", "parameter", "arg", "argument", "key", "keyword"), ("vartype",), ("var", "ivar", "cvar"),
-            ("raises", "raise", "except", "exception"), ("returns", "return"), ("rtype",)]
+S_FIELDS = [(1, ("type",)), (2, ("param", "parameter", "arg", "argument", "key", "keyword")), (3, ("vartype",)), (4, ("var", "ivar", "cvar")),
+            (5, ("raises", "raise", "except", "exception")), (6, ("returns", "return")), (7, ("rtype",))]
 OPTS = {"google": ["ignore_init_summary", "trim_doctest_flags", "returns_multiple_items", "returns_named_value",
                    "returns_type_in_property_summary", "receives_multiple_items", "receives_named_value", "warn_unknown_params"],
         "numpy": ["ignore_init_summary", "trim_doctest_flags", "warn_unknown_params"],
@@ -106,9 +107,9 @@ def features(line: str) -> list[int]:
     pm = N_RE_PARAMETER.match(line)
     npn = len(pm.group("names").split(", ")) if pm else 0
     sf = 0
-    for i, names in enumerate(S_FIELDS):
+    for code, names in S_FIELDS:
         if any(line.startswith(":" + n) for n in names):
-            sf = i + 1
+            sf = code
             break
     ls = line.lstrip()
     c1 = ls.find(":")
@@ -272,6 +273,39 @@ def canon_section(sec):
     return [kind, len(sec.value), sec.title]
 
 
+def canon_items(sec):
+    """[name, annotation as str | None, annotation is an expression, description] per item; None for sections without items."""
+    kind = sec.kind.value
+    if kind in ("text", "admonition"):
+        return None
+    if kind == "examples":       # sub-sections: (kind, text)
+        return [[getattr(k, "value", k), None, False, t] for k, t in sec.value]
+    def one(x):
+        a = getattr(x, "annotation", None)
+        return [getattr(x, "name", "") or "", a if isinstance(a, str) else None, not (a is None or isinstance(a, str)), x.description]
+    if kind == "deprecated":
+        return [one(sec.value)]
+    return [one(x) for x in sec.value]
+
+
+def parent_annotations(parent):
+    """What the field readers can find on the parent: annotated parameter names, member names n with parent[n].annotation
+    present, and whether parent.annotation is there."""
+    params, attrs = [], []
+    if parent is None:
+        return [params, attrs, False]
+    for prm in getattr(parent, "parameters", None) or []:
+        if prm.annotation is not None and prm.name.isascii():
+            params.append(prm.name)
+    for n in list(getattr(parent, "members", {})):
+        try:
+            if parent[n].annotation is not None and n.isascii():
+                attrs.append(n)
+        except Exception:  # noqa: BLE001
+            pass
+    return [sorted(params), sorted(attrs), getattr(parent, "annotation", None) is not None]
+
+
 def run_impl(style: str, text: str, opts: dict, parent_kind: str):
     """-> dict(status ok/err/hang, error, canon, problems[direct property failures], lines)."""
     from griffe import Docstring
@@ -280,7 +314,8 @@ def run_impl(style: str, text: str, opts: dict, parent_kind: str):
     doc = Docstring(text, parent=parent, lineno=3, endlineno=3 + text.count("\n"))
     before = (doc.value, doc.lineno, doc.endlineno, doc.parser, dict(doc.parser_options))
     lines = doc.value.split("\n")
-    res = {"lines": lines, "problems": [], "canon": None, "status": "ok", "error": None, "where": None, "sections": None}
+    res = {"lines": lines, "problems": [], "canon": None, "status": "ok", "error": None, "where": None, "sections": None,
+           "items": None, "pann": parent_annotations(parent)}
     old = signal.signal(signal.SIGALRM, _alarm)
     signal.setitimer(signal.ITIMER_REAL, 2.0)
     try:
@@ -311,6 +346,7 @@ def run_impl(style: str, text: str, opts: dict, parent_kind: str):
             res["problems"].append("ill-formed section: " + p)
     if not res["problems"]:
         res["canon"] = [canon_section(s) for s in secs]
+        res["items"] = [canon_items(s) for s in secs]
     res["sections"] = secs
     after = (doc.value, doc.lineno, doc.endlineno, doc.parser, dict(doc.parser_options))
     if after != before:
@@ -347,9 +383,115 @@ def plain_expectation(style, lines, opts, parent_kind):
 
 
 # ---------------------------------------------------------------- model side
-def model_input(style, opts, parent_kind, lines):
+_CH = {}
+
+
+def ch_record(c: str):
+    """One non-ASCII character for the model: code point, \\w, \\s, \\d, case-insensitive ASCII letter, lower()."""
+    r = _CH.get(c)
+    if r is None:
+        o = ord(c)
+        if o < 128:
+            r = o
+        else:
+            ci = 0
+            for letter in "abcdefghijklmnopqrstuvwxyz":
+                if re.fullmatch(letter, c, re.IGNORECASE):
+                    ci = ord(letter)
+                    break
+            r = [o, int(c.isalnum() or c == "_"), int(c.isspace()), int(c.isdecimal()), ci, [ord(x) for x in c.lower()]]
+        _CH[c] = r
+    return r
+
+
+def enc_line(line: str):
+    return line if line.isascii() else [ch_record(c) for c in line]
+
+
+def dec_text(v) -> str:
+    return v if isinstance(v, str) else "".join(chr(x) for x in v)
+
+
+def model_input(style, opts, parent_kind, lines, pann=None):
     o = [int(bool(opts.get(k, d))) for k, d in zip(OPTS["google"], (0, 1, 1, 1, 0, 1, 1, 1))]
-    return [style, o, [int(parent_kind == "init"), int(parent_kind in ("property", "property-tuple"))], [features(l) for l in lines]]
+    return [style, o, [int(parent_kind == "init"), int(parent_kind in ("property", "property-tuple"))],
+            pann or [[], [], 0], [enc_line(l) for l in lines]]
+
+
+def split_model_output(raw):
+    """-> (old-style [status, flags, sections|error], features, details, extra)"""
+    if isinstance(raw, list) and raw and raw[0] == "ok" and len(raw) == 6:
+        return ["ok", raw[1], raw[3]], raw[2], raw[4], raw[5]
+    if isinstance(raw, list) and raw and raw[0] == "err" and len(raw) == 4:
+        return ["err", raw[1], raw[3]], raw[2], None, None
+    return raw, None, None, None
+
+
+NOT_COMPILED = {("google", "functions"), ("google", "classes"), ("google", "warns"), ("numpy", "functions"), ("numpy", "classes"),
+                ("numpy", "modules"), ("numpy", "deprecated")}      # annotations that never go through parse_docstring_annotation
+
+
+def compiles(src: str) -> bool:
+    import ast
+    try:
+        compile(src, "", "eval", flags=ast.PyCF_ONLY_AST, dont_inherit=True, optimize=2)
+    except Exception:  # noqa: BLE001
+        return False
+    return True
+
+
+def items_disagreement(style, kind, model_items, impl_items):
+    """Model items [name, (annotation)|(), (description)|()] vs implementation items [name, annotation str|None, is_expr, description]."""
+    if len(model_items) != len(impl_items):
+        return f"{len(model_items)} items in the model, {len(impl_items)} in the implementation"
+    for k, (mi, ii) in enumerate(zip(model_items, impl_items)):
+        name = dec_text(mi[0])
+        if kind not in ("raises", "warns", "deprecated") and name != ii[0]:
+            return f"item {k}: name {name!r} (model) vs {ii[0]!r}"
+        if mi[2]:
+            d = dec_text(mi[2][0])
+            if d != ii[3]:
+                return f"item {k}: description {d!r:.120} (model) vs {ii[3]!r:.120}"
+        if mi[1] and not ii[2]:
+            a = dec_text(mi[1][0])
+            if ii[1] is not None and a != ii[1] and ((style, kind) in NOT_COMPILED or not compiles(a)):
+                # a source that compiles may come back rendered by the expression builder ("2 " -> "2"); that is outside the model
+                return f"item {k}: annotation source {a!r:.80} (model) vs {ii[1]!r:.80}"
+            if ii[1] is None and not (style == "google" and kind in ("returns", "yields", "receives")):
+                return f"item {k}: annotation source {a!r:.80} in the model, none in the implementation"
+    return None
+
+
+def sphinx_disagreement(extra, canon, items):
+    """The Sphinx model's parameters / attributes / return / exceptions vs the sections returned
+    (canon: [kind, ...] per section; items: [name, annotation str|None, is_expr, description] per item)."""
+    params, attrs, ret, excs = extra
+    by_kind = {c[0]: it for c, it in zip(canon, items)}
+
+    def ann_ok(ma, g):
+        if ma[0] == "str":
+            return g[1] == dec_text(ma[1]) and not g[2]
+        return (g[1] is not None or g[2]) if ma[0] == "parent" else (g[1] is None and not g[2])
+
+    for kind, mitems in (("parameters", params), ("attributes", attrs)):
+        got = by_kind.get(kind) or []
+        if len(got) != len(mitems):
+            return f"{kind}: {len(mitems)} in the model, {len(got)} in the implementation"
+        for m, g in zip(mitems, got):
+            if dec_text(m[0]) != g[0] or dec_text(m[2]) != g[3] or not ann_ok(m[1], g):
+                return f"{kind}: model {dec_text(m[0])!r} {m[1]} {dec_text(m[2])!r:.60} vs {g}"
+    got = by_kind.get("returns") or []
+    if bool(ret) != bool(got):
+        return f"returns: model {ret} vs {len(got)} items"
+    if ret and (dec_text(ret[0][1]) != got[0][3] or not ann_ok(ret[0][0], got[0])):
+        return f"returns: model {ret[0][0]} {dec_text(ret[0][1])!r:.60} vs {got[0]}"
+    got = by_kind.get("raises") or []
+    if len(got) != len(excs):
+        return f"raises: {len(excs)} in the model, {len(got)} in the implementation"
+    for m, g in zip(excs, got):
+        if dec_text(m[0]) != g[1] or dec_text(m[1]) != g[3]:
+            return f"raises: model {dec_text(m[0])!r} {dec_text(m[1])!r:.60} vs {g}"
+    return None
 
 
 def expected_from_model(style, lines, secs):
@@ -406,6 +548,7 @@ def evaluate(ctx, cases, stream, runner=None, model_max_len=None):
     runner = runner or run_impl
     impl = []
     bad = []
+    t_start = time.time()
     for c in cases:
         r = runner(*c)
         impl.append(r)
@@ -419,13 +562,23 @@ def evaluate(ctx, cases, stream, runner=None, model_max_len=None):
     # a case without result has no lines to give to the model: the direct evaluation below reports it
     with_model = [i for i, r in enumerate(impl) if r["lines"] and ctx.driver is not None
                   and (model_max_len is None or max(len(l) for l in r["lines"]) <= model_max_len)]
-    mouts = ctx.model([model_input(cases[i][0], cases[i][2], cases[i][3], impl[i]["lines"]) for i in with_model])
+    t_impl = time.time()
+    mouts = ctx.model([model_input(cases[i][0], cases[i][2], cases[i][3], impl[i]["lines"], impl[i].get("pann")) for i in with_model])
+    ctx.stats[f"seconds_impl:{stream}"] = round(ctx.stats[f"seconds_impl:{stream}"] + t_impl - t_start, 2)
+    ctx.stats[f"seconds_model:{stream}"] = round(ctx.stats[f"seconds_model:{stream}"] + time.time() - t_impl, 2)
     outs = [None] * len(impl)
     for i, mo in zip(with_model, mouts):
         outs[i] = mo
-    for (style, text, opts, pk), r, mo in zip(cases, impl, outs):
+    for (style, text, opts, pk), r, raw in zip(cases, impl, outs):
         lines = r["lines"]
         case = {"style": style, "text": text, "options": opts, "parent": pk}
+        mo, feats, details, extra = split_model_output(raw)
+        if mo == ["regex-outside-criterion"]:
+            if not ctx.stats["model_refused"]:
+                ctx.tie_failure("correspondence", "the model refuses to run: a regex of the parsers is outside the criterion "
+                                "(Model/C12_run.v:regexes_ok)", {}, case)
+            ctx.count("model_refused")
+            mo = None
         if mo is None:
             ctx.case(case, False)
             ctx.observe("stream", stream)
@@ -464,6 +617,14 @@ def evaluate(ctx, cases, stream, runner=None, model_max_len=None):
             ctx.tie_failure("oracle", "cleandoc_post(model) vs harness evaluation on Docstring.lines", {"model": post_m, "python": post_py}, case)
         if not wf_m:
             ctx.tie_failure("oracle", "lines_wf(model): the feature extractor produced a null line that is not blank", {"lines": lines[:6]}, case)
+        # (O) the line features computed inside the model (model matcher on the regenerated regex ASTs and keyword tables,
+        # Coq string functions) vs this harness's evaluation with CPython's re and str methods
+        want_feats = [features(l) for l in lines]
+        if feats != want_feats:
+            k = next((i for i, (a, b) in enumerate(zip(feats, want_feats)) if a != b), None)
+            ctx.tie_failure("oracle", "line features: model (Coq matcher / string functions) vs CPython re / str",
+                            {"line": None if k is None else lines[k][:200], "model": None if k is None else feats[k],
+                             "python": None if k is None else want_feats[k]}, case)
         # (C) model vs implementation
         if mo[0] == "err":
             ctx.observe("model_result", f"{style}:err:{mo[2]}")
@@ -482,6 +643,23 @@ def evaluate(ctx, cases, stream, runner=None, model_max_len=None):
                 if not sections_agree(style, exp, r["canon"]):
                     ctx.tie_failure("correspondence", f"{style}: sections(model) vs Docstring.parse",
                                     {"model": exp, "impl": r["canon"]}, case)
+                elif style == "sphinx":
+                    d = sphinx_disagreement(extra, r["canon"], r["items"])
+                    ctx.observe("item_check", "sphinx:" + ("differs" if d else "agrees"))
+                    if d:
+                        ctx.tie_failure("correspondence", "sphinx: field values (model) vs Docstring.parse", {"difference": d}, case)
+                else:
+                    for c, its, dets in zip(r["canon"], r["items"], details):
+                        if its is None:
+                            continue
+                        d = items_disagreement(style, c[0], dets, its)
+                        ctx.observe("item_check", f"{style}:{c[0]}:" + ("differs" if d else "agrees"))
+                        ctx.observe("item_annotation", "expr" if any(i[2] for i in its) else "str/none")
+                        if d:
+                            ctx.tie_failure("correspondence", f"{style}: {c[0]} items (model) vs Docstring.parse",
+                                            {"difference": d, "model": [[dec_text(x[0]), [dec_text(y) for y in x[1]], [dec_text(y) for y in x[2]]] for x in dets][:6],
+                                             "impl": its[:6]}, case)
+                            break
             elif r["status"] != "ok":
                 ctx.tie_failure("correspondence", f"{style}: model returns sections, implementation {r['status']} {r['error']}",
                                 {"model": mo[2]}, case)
@@ -506,10 +684,18 @@ TRANSLATOR_NAME = "harness/translate/c12_regexes.py"
 
 def translate(ctx):
     """Regenerate coq/Gen/C12_regexes.v (every regex of the parsers as an AST) and coq/Gen/C12_tables.v (keyword tables)."""
-    global EX
+    global EX, G_SECTION_KIND, N_SECTION_KIND, G_RE_ADMONITION, N_RE_PARAMETER, S_FIELDS
     from harness.translate import c12_regexes
     EX = None
     EX = c12_regexes.translate(ctx)
+    # from here on the harness's own feature extractor evaluates the regexes and tables of the tree under test with CPython's
+    # re and str (the copies at the top of this file are only the fallback for a translator that failed closed)
+    G_SECTION_KIND = dict(EX.section_kind["google"])
+    N_SECTION_KIND = dict(EX.section_kind["numpy"])
+    G_RE_ADMONITION = EX.regexes["google._RE_ADMONITION"].compiled()
+    N_RE_PARAMETER = EX.regexes["numpy._RE_PARAMETER"].compiled()
+    order = ["FPType", "FParam", "FAType", "FAttr", "FExc", "FRet", "FRType"]
+    S_FIELDS = [(order.index(c) + 1, tuple(names)) for c, names in EX.sphinx_fields]
 
 
 # ---------------------------------------------------------------- implementation in a subprocess (per-case watchdog)
@@ -602,7 +788,15 @@ def _cls_match_py(c, ch, ic):
 
 
 def _reps(c, ic, k):
-    return [ch for ch in ADV_CANDIDATES if _cls_match_py(c, ch, ic)][:k]
+    """up to k characters of the class: its own literals first, then the stock candidates"""
+    own = ""
+    if c != ("any",) and not c[1]:
+        own = "".join(chr(it[1]) for it in c[2] if it[0] in ("lit", "range") and it[1] < 128)
+    out = []
+    for ch in own + ADV_CANDIDATES:
+        if ch not in out and _cls_match_py(c, ch, ic):
+            out.append(ch)
+    return out[:k]
 
 
 def _min_word(t, ic):
@@ -672,7 +866,8 @@ def adversarial_lines(rx, lengths):
             for n in lengths:
                 for suf in sufs:
                     for tail in ("", " tail"):
-                        s = pre + pump * n + suf + tail
+                        # inspect.cleandoc expands a tab to up to 8 spaces before the parsers see the text
+                        s = pre + pump * (max(1, n // 8) if "\t" in pump else n) + suf + tail
                         if s not in seen:
                             seen.add(s)
                             out.append(s)
@@ -686,7 +881,7 @@ def generic_adversarial_lines(lengths):
         for ch in "x ,:(-\t*":
             for n in lengths:
                 for suf in ("", ")", ":", "!"):
-                    out.append(pre + ch * n + suf)
+                    out.append(pre + ch * (max(1, n // 8) if ch == "\t" else n) + suf)
     return out
 
 
@@ -721,7 +916,10 @@ def adversarial_docstrings(style, line):
     """(one docstring with the line in every role, the single-role docstrings used to narrow a failure down)"""
     singles = []
     for role, tpl in ADV_CONTEXTS[style].items():
-        heads = ADV_HEADERS[style] if "{H}" in tpl else [""]
+        if len(line) > 200 and role in ("description", "continuation", "value"):
+            continue        # roles no regex is applied to: short lines only
+        # every reader sees the line as an item; the other roles are read by the same code whatever the section
+        heads = [""] if "{H}" not in tpl else ADV_HEADERS[style] if role == "item" else ADV_HEADERS[style][:2]
         for h in heads:
             singles.append((f"{role}/{h}" if h else role, tpl.replace("{H}", h).replace("{L}", line)))
     combined = "Summary.\n\n" + "\n".join(d.split("\n\n", 1)[1] for _, d in singles)
@@ -760,7 +958,7 @@ def adversarial_stream(ctx):
                 opts = {} if i % 3 else random_opts(ctx.rng, st)
                 cases.append((st, combined, opts, PARENTS[i % len(PARENTS)]))
             for b in batches(cases, 400):
-                bad = evaluate(ctx, b, "adversarial", runner=worker, model_max_len=2000)
+                bad = evaluate(ctx, b, "adversarial", runner=worker, model_max_len=400)
                 for (style, text, opts, pk) in bad[:2]:
                     # narrow down: which single role of which line
                     line = lines[cases.index((style, text, opts, pk))]
@@ -782,6 +980,86 @@ def adversarial_stream(ctx):
         worker.stop()
         ctx.count("worker_killed", worker.killed)
         ctx.count("adversarial_done")
+
+
+# ---------------------------------------------------------------- (O) the model matcher vs CPython's re
+def sample_word(t, ic, rng):
+    """A random word of the regex (alternatives, optional parts and repetition counts drawn at random)."""
+    tag = t[0]
+    if tag == "chr":
+        r = _reps(t[1], ic, 6)
+        return rng.choice(r) if r else "\x01"
+    if tag == "seq":
+        return sample_word(t[1], ic, rng) + sample_word(t[2], ic, rng)
+    if tag == "alt":
+        return sample_word(t[1 + (rng.random() < 0.5)], ic, rng)
+    if tag == "opt":
+        return sample_word(t[2], ic, rng) if rng.random() < 0.6 else ""
+    if tag == "star":
+        return "".join(sample_word(t[2], ic, rng) for _ in range(rng.choice([0, 1, 1, 2, 3, 5])))
+    if tag == "grp":
+        return sample_word(t[2], ic, rng)
+    return ""
+
+
+def regex_oracle(ctx):
+    """Every regex of the parsers (AST regenerated from the source, run by the model matcher) against the same pattern compiled
+    by CPython's re, on lines drawn from the generators: match / no match, end position, span of every group; and the result
+    of sub("", line) for the patterns used that way."""
+    if EX is None or ctx.driver is None:
+        return
+    rng = ctx.rng
+    pool = set()
+    for _ in range(ctx.budget(260, 2000)):
+        style = rng.choice(STYLES)
+        text = gen_structured(rng, style) if rng.random() < 0.5 else gen_frags(rng) if rng.random() < 0.5 else gen_malformed(rng, style)
+        for l in text.split("\n"):
+            if len(l) <= 300:
+                pool.add(l)
+                pool.add(l.strip())
+                if ":" in l:
+                    pool.add(l.split(":", 1)[1].strip())
+    for key, rx in EX.regexes.items():
+        pool.update(adversarial_lines(rx, [12])[:60])
+        for _ in range(ctx.budget(60, 400)):       # words of the regex, whole and damaged, alone and inside other text
+            w = sample_word(rx.tree, rx.ic, rng)
+            pool.add(w)
+            if w:
+                i = rng.randrange(len(w))
+                pool.add(w[:i] + w[i + 1:])
+                pool.add(w[:i] + rng.choice(ADV_CANDIDATES) + w[i:])
+                pool.add(rng.choice([">>> f()", "x", "  "]) + w)
+                pool.add(w.upper() if rng.random() < 0.5 else w.swapcase())
+    pool = sorted(pool)
+    reqs, meta = [], []
+    for key, rx in EX.regexes.items():
+        pat = rx.compiled()
+        for l in pool:
+            reqs.append(["rx", key, enc_line(l)])
+            meta.append(("rx", key, l, pat, rx))
+            if "USub" in rx.uses:
+                reqs.append(["sub", key, enc_line(l)])
+                meta.append(("sub", key, l, pat, rx))
+    outs = ctx.model(reqs)
+    ctx.count("regex_oracle_cases", len(reqs))
+    bad = 0
+    for (kind, key, l, pat, rx), o in zip(meta, outs):
+        if o == ["regex-outside-criterion"]:
+            ctx.count("model_refused")
+            continue
+        if kind == "rx":
+            mt = pat.match(l)
+            want = ["none"] if mt is None else ["match", mt.end(), [[i, mt.start(i), mt.end(i)] for i in range(1, rx.ngroups + 1) if mt.start(i) >= 0]]
+            ctx.observe("regex_oracle", f"{key}:{want[0]}")
+            ok = o == want
+        else:
+            want = pat.sub("", l)
+            ctx.observe("regex_oracle", f"{key}:sub:{'changed' if want != l else 'same'}")
+            ok = isinstance(o, (str, list)) and o != ["bad-input"] and dec_text(o) == want
+        if not ok:
+            bad += 1
+            if bad <= 5:
+                ctx.tie_failure("oracle", f"model matcher vs CPython re on {key} ({kind})", {"line": l, "model": o, "python": want})
 
 
 # ---------------------------------------------------------------- generators
@@ -984,6 +1262,7 @@ def explore(ctx):
     logging.getLogger("griffe").setLevel(logging.CRITICAL)
     logging.getLogger("_griffe").setLevel(logging.CRITICAL)
     rng = ctx.rng
+    ctx.stats["seconds_before_explore"] = round(ctx.elapsed(), 1)
     known_witness(ctx)
     cc = list(corpus_cases())
     if cc:
@@ -1019,6 +1298,7 @@ def explore(ctx):
     for b in batches(cases, 3000):
         evaluate(ctx, b, "malformed")
     adversarial_stream(ctx)
+    regex_oracle(ctx)
     if not ctx.quick:
         sample = []
         for _ in range(30):
@@ -1084,9 +1364,11 @@ def replay(ctx, data):
     print("lines  :", r["lines"])
     print("impl   :", r["status"], r["error"], r["canon"])
     print("direct :", r["problems"])
-    if ctx.driver is not None:
-        mo = ctx.model([model_input(c[0], c[2], c[3], r["lines"])])[0]
+    if ctx.driver is not None and r["lines"]:
+        raw = ctx.model([model_input(c[0], c[2], c[3], r["lines"], r.get("pann"))])[0]
+        mo, feats, details, extra = split_model_output(raw)
         print("model  :", mo)
-        if mo[0] == "ok":
+        if isinstance(mo, list) and mo and mo[0] == "ok":
             print("expect :", expected_from_model(c[0], r["lines"], mo[2]))
+            print("items  :", details, extra)
     return 0
